@@ -2,7 +2,7 @@
 # usage: confirm_seeded.sh <ID> : re-runs, in the sub-agent's scratch worktree /tmp/wt/<ID>, the three facts a seeded
 # change must satisfy (demo fails with it, passes without it, pinned tests still pass) and stores the artefacts
 # under /verif/seeded/<ID>/.
-ID="$1"; WT=/tmp/wt/$ID; OUT=/verif/seeded/$ID
+ID="$1"; WT=${WTROOT:-/tmp/wt}/$ID; OUT=/verif/seeded/${ID}${SUFFIX:-}
 mkdir -p "$OUT"
 cd "$WT" || exit 2
 git diff -- sopht/ > "$OUT/patch.diff"
